@@ -13,6 +13,9 @@ long division: bring down one bit at a time; whenever the partial remainder reac
 left pushes its `x^23` coefficient out to `x^24`, where it is cancelled by the leading term of
 `G`, and the remaining 24 coefficients of `G` (`P = 0xFFF409`) are XORed in.
 
+`polyModNat` below is the same division written on plain numbers with the full 25-bit
+generator (nothing dropped); `Props/C02.spec_is_long_division` proves the two equal.
+
 The 24 parity bits of a frame are `(data(x) · x^24) mod G`, i.e. the remainder of the data
 bits followed by 24 zeros, so that a frame with its parity attached has remainder 0.
 
@@ -40,6 +43,14 @@ def polyModFrom (r : BitVec 24) (bs : List Bool) : BitVec 24 := bs.foldl feed r
 /-- `M(x) mod G(x)` for the bit string `bs` (first bit = highest power) -/
 def polyMod (bs : List Bool) : BitVec 24 := polyModFrom 0#24 bs
 
+/-- schoolbook long division on numbers, with the full 25-bit generator: bring down the next bit;
+    if the partial remainder has reached degree 24, subtract (XOR) the generator -/
+def divStep (r : Nat) (b : Bool) : Nat :=
+  let t := 2 * r + b.toNat
+  if t ≥ 2 ^ 24 then t ^^^ GENERATOR else t
+
+/-- remainder of the bit string modulo the generator, as a number -/
+def polyModNat (bs : List Bool) : Nat := bs.foldl divStep 0
 /-- the `n` low bits of `v`, most significant first -/
 def bitsN : Nat → Nat → List Bool
   | 0, _ => []
